@@ -151,6 +151,10 @@ def cases(cplx):
             lambda x, y, eq=eq: cplx.einsum(eq, x, y, imag_part=False), lambda x, y, espec=espec: espec(x, y, "real"))
         add("einsum(%s, real_part=False)" % eq, [("x", (2,) + sx, "real"), ("y", (2,) + sy, "real")],
             lambda x, y, eq=eq: cplx.einsum(eq, x, y, real_part=False), lambda x, y, espec=espec: espec(x, y, "imag"))
+    # the index letters are the caller's choice
+    for eq in ("xy,yz->xz", "AB,BC->AC", "rs,st->rt", "uv,vw->uw", "pq,qo->po", "mn,nl->ml", "za,ab->zb", "gh,hf->gf", "cd,de->ce", "XY,YZ->XZ", "ij, jk -> ik"):
+        add("einsum(index letters %s)" % eq, [("x", (2, n, k), "real"), ("y", (2, k, m), "real")], lambda x, y, eq=eq: cplx.einsum(eq, x, y),
+            lambda x, y: cbuild((n, m), lambda i, j: (G.sum_over(k, lambda q: cmul(cel(x, i, q), cel(y, q, j))[0]), G.sum_over(k, lambda q: cmul(cel(x, i, q), cel(y, q, j))[1]))))
     add("einsum(no part requested)", [("x", (2, n), "real"), ("y", (2, n), "real")],
         lambda x, y: cplx.einsum("i,i->", x, y, real_part=False, imag_part=False), lambda x, y: None)
     # ---- out= buffer of scalar_mult
